@@ -15,7 +15,7 @@ import threading
 
 import gal
 
-GEN = ["enginefacts"]
+GEN = ["enginefacts", "charclass", "lexfacts"]
 RULE = ("texts drawn from a pool of valid and invalid expressions (about 40% invalid: lexical errors, "
         "grammar errors, empty); 2-3 concurrent parse calls on one engine; schedules = all merges of the "
         "calls' token-fetch steps when there are <= 252 of them, else seeded random merges; non-trivial = "
@@ -211,6 +211,15 @@ def n_merges(counts):
 
 
 HEADER = "From YV Require Import Model.LexerState."
+HEADER_REAL = "From YV Require Import Model.LexerState Model.LexerStateReal."
+
+
+def real_case_term(texts, facts, sched, obs, priv):
+    """Same observation, but the model's tokenizer is Model/Lexer.v run on the TEXT itself."""
+    fet = gal.lst("(%s, %s)" % (gal.s(t), gal.nat(max(1, len(facts[t][1])))) for t in sorted(set(texts)))
+    pr = lambda tr: gal.lst("(%s, %s)" % (gal.boolean(e), gal.nat(p)) for e, p in tr)
+    return ("{| r_fetches := %s; r_threads := %s; r_sched := %s; r_priv := %s; r_obs := %s |}"
+            % (fet, gal.lst(gal.s(t) for t in texts), gal.natlist(sched), gal.boolean(priv), gal.lst(pr(tr) for tr in obs)))
 
 
 def case_term(texts, facts, sched, obs, priv):
@@ -268,9 +277,17 @@ def run_scheduled_case(run, eng, texts, sched, facts, priv, cases, meta):
                   "theorem": "C01_schedule_independent (premise lexer_private)"})
     cases.append(case_term(texts, facts, used, s.traces, priv))
     meta.append((texts, used, s.traces))
+    if len(REAL_CASES) < REAL_BUDGET[0] and all("\\N" not in t for t in texts):
+        REAL_CASES.append((real_case_term(texts, facts, used, s.traces, priv), (texts, used, s.traces)))
+
+
+REAL_CASES = []
+REAL_BUDGET = [0]
 
 
 def correspondence(run):
+    del REAL_CASES[:]
+    REAL_BUDGET[0] = run.n(150, 1500)
     priv = lexer_private()
     eng = engine()
     snap = tables_snapshot(eng)
@@ -303,6 +320,13 @@ def correspondence(run):
         done += 1
     if tables_snapshot(eng) != snap:
         run.fail("violation", "the engine's LR tables changed while parsing (shared state written by a parse call)", {})
+    bad_real = run.coq_mismatches(HEADER_REAL, "c01r_case", "c01r_case_ok", [c for c, _ in REAL_CASES], shard=40)
+    run.count("cases_with_the_lexer_model_as_tokenizer", len(REAL_CASES))
+    for i in bad_real[:2]:
+        texts, used, traces = REAL_CASES[i][1]
+        run.fail("mismatch", "fetch positions observed under a schedule differ from the cursor model run on the lexer model "
+                             "(Model/Lexer.v) of the texts",
+                 {"texts": texts, "schedule": used, "observed_fetches": traces})
     bad = run.coq_mismatches(HEADER, "c01_case", "c01_case_ok", cases, shard=250)
     for i in bad[:3]:
         texts, used, traces = meta[i]
